@@ -1,7 +1,7 @@
 (* C01: the element semantics (Model/Core.v `step`, run by `parse`) agrees with the reference PEG reading
    (Model/Peg.v) on every grammar of `in_class`, every input, every location, every fuel. *)
 From Coq Require Import List ZArith NArith Bool Arith Lia.
-From PP Require Import Model.Str Model.Results Model.Prog Model.Core Model.Peg Proofs.EachFacts Proofs.EachPeg.
+From PP Require Import Model.Str Model.Results Model.Prog Model.Core Model.Peg Proofs.EachFacts Proofs.EachPeg Proofs.OrCombineFacts.
 Import ListNotations.
 
 (* ------------------------------------------------------------------------------------------- *)
@@ -156,6 +156,7 @@ Proof.
     + repeat (apply andb_prop in H as [H ?]). destruct i; [auto|discriminate].
     + repeat (apply andb_prop in H as [H ?]). destruct i; [auto|discriminate].
     + repeat (apply andb_prop in H as [H ?]). destruct i; [auto|discriminate].
+    + repeat (apply andb_prop in H as [H ?]). destruct i; [auto|discriminate].
   - repeat (apply andb_prop in H as [H ?]). destruct i; [auto|discriminate].
   - destruct ne; [discriminate H|]. repeat (apply andb_prop in H as [H ?]). destruct i; [auto|discriminate].
   - destruct id; [|discriminate H]. repeat (apply andb_prop in H as [H ?]). destruct i; [auto|discriminate].
@@ -286,6 +287,103 @@ Proof.
     + injection H1 as <-. reflexivity.
 Qed.
 
+(* ---- Or ('^') ----
+   First pass: every alternative is tried (try_parse, do_actions = False) and the successes are collected as (end, alt).
+   In the class no alternative raises anything but a ParseException, so `fatals` stays empty.  `or_rel` ties the list of
+   matches to the state of the reading's `peg_longest`: the head of the stably sorted list is the reading's current best
+   (the leftmost alternative of greatest end).  Second pass: the head is parsed again by the very same call (do_actions =
+   False), or with do_actions = True, where the induction hypothesis gives the same end and tokens (no actions in the
+   class), so `or_go2` returns at its first iteration. *)
+Definition or_k (e : expr) (d : bool) (L L1 : nat) : list (nat * expr) -> list (exn * nat) -> option exn -> prg :=
+  fun matches fatals best =>
+    let tail (best : option exn) : prg :=
+      match pick_fatal fatals with
+      | Some fx => fail_of (step_k e s d L) fx
+      | None => alt_fail (fail_of (step_k e s d L)) e s L1 best
+      end in
+    match matches with
+    | [] => tail best
+    | _ =>
+      let sorted := sort_desc (fun p => Z.of_nat (fst p)) matches in
+      if negb d then
+        match sorted with
+        | (_, c) :: _ => call c s L1 false true (fun o => match o with Ok l r => step_k e s d L (inr (l, RPR r)) | _ => failo_of (step_k e s d L) o end)
+        | [] => tail best
+        end
+      else or_go2 (step_k e s d L) tail s L1 sorted None best
+    end.
+
+Definition or_rel (L1 : nat) (matches : list (nat * expr)) (pb : option (nat * list tok)) : Prop :=
+  match pb with
+  | None => matches = []
+  | Some (l, ts) => exists c rest, sort_desc (fun p => Z.of_nat (fst p)) matches = (l, c) :: rest /\
+                                   in_class G c = true /\ ppeg f c L1 = POk l ts
+  end.
+
+Definition best_pe (best : option exn) : Prop := match best with Some b => is_pe (xk b) = true | None => True end.
+
+Lemma alt_fail_ok e d L L1 best : in_class G e = true -> best_pe best ->
+  good (run (pparse f) (alt_fail (fail_of (step_k e s d L)) e s L1 best)) PFail.
+Proof.
+  intros He Hb. unfold alt_fail. destruct best as [b|].
+  - rewrite pre_parse_plain by exact He.
+    match goal with |- context [fail_of _ ?X] => set (bx := X) end.
+    assert (is_pe (xk bx) = true) as Kb.
+    { unfold bx. destruct (xloc b =? _)%Z; [exact Hb|exact Hb]. }
+    rewrite fail_pe by exact Kb. unfold good. simpl. rewrite Kb. reflexivity.
+  - rewrite fail_pe by reflexivity. reflexivity.
+Qed.
+
+Lemma or_k_ok e d L L1 : in_class G e = true ->
+  (forall l acc, run (pparse f) (step_k e s d L (inr (l, RPR acc))) = Some (Ok l (PR (toks acc) (dict acc) (allnames acc) (rname acc) (modalr (attrs_of e))))) ->
+  forall matches best pb, or_rel L1 matches pb -> best_pe best ->
+  good (run (pparse f) (or_k e d L L1 matches [] best)) (match pb with Some (l, ts) => POk l ts | None => PFail end).
+Proof.
+  intros He HK matches best pb HR Hb. destruct pb as [[l ts]|]; cbn [or_rel] in HR.
+  - destruct HR as (c & rest & Hs & Hc & Hp).
+    destruct matches as [|m ms]; [discriminate Hs|].
+    unfold or_k. cbv zeta. rewrite Hs.
+    assert (Hcall : forall d0, exists r, pparse f (mkargs c s L1 d0 true) = Some (Ok l r) /\ pr_as_list r = ts).
+    { intros d0. destruct (IH c Hc L1 d0) as [H1 _]. unfold good in H1. rewrite Hp in H1.
+      destruct (pparse f (mkargs c s L1 d0 true)) as [[l' r|x|]|]; simpl in H1.
+      - injection H1 as -> <-. eexists. split; reflexivity.
+      - destruct (is_pe (xk x)); discriminate H1.
+      - discriminate H1.
+      - discriminate H1. }
+    destruct d; cbn [negb].
+    + cbn [or_go2]. unfold call. cbn [run]. destruct (Hcall true) as (r & -> & <-).
+      rewrite Nat.leb_refl. rewrite HK. reflexivity.
+    + unfold call. cbn [run]. destruct (Hcall false) as (r & -> & <-). rewrite HK. reflexivity.
+  - subst matches. unfold or_k. cbv zeta. cbn [pick_fatal sort_desc fold_left]. apply alt_fail_ok; assumption.
+Qed.
+
+Lemma or_pass1_ok e d L L1 : in_class G e = true ->
+  (forall l acc, run (pparse f) (step_k e s d L (inr (l, RPR acc))) = Some (Ok l (PR (toks acc) (dict acc) (allnames acc) (rname acc) (modalr (attrs_of e))))) ->
+  forall es,
+  (fix all (l : list expr) : bool := match l with [] => true | x :: r => in_class G x && all r end) es = true ->
+  forall matches best pb, or_rel L1 matches pb -> best_pe best ->
+  good (run (pparse f) (or_pass1 (fail_of (step_k e s d L)) e es s L1 matches [] best (or_k e d L L1)))
+       (peg_longest (ppeg f) es L1 pb).
+Proof.
+  intros He HK. induction es as [|c rest IHr]; intros Hall matches best pb HR Hb.
+  - cbn [or_pass1 peg_longest].
+    apply or_k_ok; assumption.
+  - apply andb_prop in Hall as [Hc Hall]. cbn [or_pass1 peg_longest]. unfold try_parse, call. cbn [run].
+    destruct (IH c Hc L1 false) as [H1 _]. unfold good in H1.
+    destruct (pparse f (mkargs c s L1 false true)) as [[l r|x|]|]; simpl in H1.
+    + injection H1 as H1. rewrite <- H1. apply IHr; [exact Hall| |exact Hb].
+      destruct pb as [[bl bts]|]; cbn [or_rel] in HR |- *.
+      * destruct HR as (c0 & rest0 & Hs & Hc0 & Hp0).
+        destruct (sort_desc_head_step matches bl c0 rest0 l c Hs) as (rest' & Hs').
+        destruct (Nat.ltb bl l); cbn [or_rel]; eexists; eexists; (split; [exact Hs'|]); split; auto.
+      * subst matches. exists c, []. split; [reflexivity|]. split; auto.
+    + destruct (is_pe (xk x)) eqn:K; [|discriminate]. injection H1 as H1. rewrite <- H1.
+      rewrite (is_pe_not_fatal _ K). rewrite ?K. apply IHr; [exact Hall|exact HR|].
+      unfold better, best_pe in *. destruct best as [b|]; [destruct (xloc b <? xloc x)%Z|]; assumption.
+    + injection H1 as <-. reflexivity.
+    + injection H1 as <-. reflexivity.
+Qed.
+
 Lemma rep_go_ok e body d L foe : in_class G e = true -> in_class G body = true ->
   (forall l acc, run (pparse f) (step_k e s d L (inr (l, RPR acc))) = Some (Ok l (PR (toks acc) (dict acc) (allnames acc) (rname acc) (modalr (attrs_of e))))) ->
   forall n loc acc,
@@ -351,6 +449,15 @@ Proof.
       pose proof He as He'. simpl in He. apply andb_prop in He as [He Hall].
       cbn [impl]. apply mf_go_ok; [exact He'| |exact Hall|exact I].
       intros l0 acc. rewrite HK. reflexivity.
+    + (* Or *)
+      pose proof He as He'. simpl in He. apply andb_prop in He as [He Hall].
+      cbn [impl attrs_of].
+      destruct (forallb (fun c => callpre (attrs_of c)) es).
+      * rewrite pre_parse_plain by exact He'. cbn [attrs_of].
+        apply (or_pass1_ok (Nary a i NOr es) d L _ He'); [|exact Hall|reflexivity|exact I].
+        intros l0 acc. rewrite HK. reflexivity.
+      * apply (or_pass1_ok (Nary a i NOr es) d L _ He'); [|exact Hall|reflexivity|exact I].
+        intros l0 acc. rewrite HK. reflexivity.
     + (* Each *)
       simpl in He. apply andb_prop in He as [He Hall]. apply andb_prop in He as [He Hnull].
       apply andb_prop in He as [Hp Hi]. destruct i; [|discriminate Hi].
@@ -393,6 +500,23 @@ Proof.
       specialize (H2 (stable_child (Enh a i ESuppress c) c loc0 Hk)). unfold good in H2.
       destruct (pparse f (mkargs c s L d false)) as [[l r|x|]|]; simpl in H2.
       * injection H2 as <-. rewrite HK. reflexivity.
+      * destruct (is_pe (xk x)) eqn:K; [|discriminate]. injection H2 as <-.
+        assert (is_pe (xk (enh_rewrite a false L x)) = true) as K'
+          by (unfold enh_rewrite; rewrite (is_pe_kind _ K); reflexivity).
+        rewrite fail_pe by exact K'. unfold good. simpl. rewrite K'. reflexivity.
+      * injection H2 as <-. reflexivity.
+      * injection H2 as <-. reflexivity.
+    + (* ECombine: the content yields scalar tokens only (flat_class), on which _asStringList is the reading's join *)
+      apply andb_prop in Hk as [Hk Hflat].
+      destruct (IH c Hc L d) as [_ H2].
+      specialize (H2 (stable_child (Enh a i (ECombine join) c) c loc0 Hk)). unfold good in H2.
+      destruct (pparse f (mkargs c s L d false)) as [[l r|x|]|]; simpl in H2.
+      * injection H2 as H2. rewrite <- H2.
+        pose proof (flat_scalars G s f c Hflat L l (pr_as_list r) (eq_sym H2)) as Hsc.
+        rewrite HK. unfold good. cbn [proj post_parse].
+        destruct (in_class_plain _ He') as [Hp _]. destruct (plain_inv _ Hp) as [_ Hn]. cbn [attrs_of] in Hn |- *.
+        rewrite Hn. rewrite as_list_init_noname. unfold raw_tokens. cbn [pr_new].
+        rewrite as_list_iadd, as_list_del_all. rewrite (combine_join join r Hsc). reflexivity.
       * destruct (is_pe (xk x)) eqn:K; [|discriminate]. injection H2 as <-.
         assert (is_pe (xk (enh_rewrite a false L x)) = true) as K'
           by (unfold enh_rewrite; rewrite (is_pe_kind _ K); reflexivity).
